@@ -173,6 +173,13 @@ class ExecBase:
             elif c == 'str':
                 facts.append(z3.Or(v.term == NONE, Ref.is_str(v.term)) if t.opt else Ref.is_str(v.term))
             else:
+                inv = getattr(self.spec, 'type_invariants', {}).get(c)
+                if inv is not None and not self.spec_mode:
+                    try:
+                        f = self.spec_bool(inv, {'x': V(Ty('obj', cls=c), v.term)})
+                        facts.append(z3.Or(v.term == NONE, f))
+                    except RecursionError:
+                        pass
                 cid = smt.CLASSES.get(c)
                 if cid is not None:
                     f = smt.issub(smt.tag(v.term), cid)
